@@ -10,6 +10,7 @@
 #include <set>
 #include <functional>
 #include <sstream>
+#include <atomic>
 #include "harness/dp.hpp"
 #include "ref/codec.hpp"
 #include "world/world.h"
@@ -47,12 +48,53 @@ struct WriteRec {
 	size_t off, len;    // range in Session::down
 };
 
+// Uplink byte queue between the injecting threads (harness, bus simulator inside the write callback) and the
+// library's receiver thread (read callback). Multi-producer / single-consumer ring with acquire/release
+// publication only, so that it is also usable under ThreadSanitizer with real threads without adding
+// happens-before edges other than producer -> consumer (the causality of a real bus).
+struct UpQueue {
+	static const size_t CAP = 1u << 17;
+	struct Slot { uint64_t t; uint8_t b; };
+	Slot *slots = new Slot[CAP];
+	std::atomic<size_t> head{0}, tail{0};     // consumer / producers
+	std::atomic_flag plock = ATOMIC_FLAG_INIT;
+	uint64_t last_t = 0;                      // guarded by plock
+	~UpQueue() { delete[] slots; }
+	bool empty() const { return head.load(std::memory_order_relaxed) == tail.load(std::memory_order_acquire); }
+	void clear() { head.store(tail.load(std::memory_order_acquire), std::memory_order_relaxed); }
+	void push(const uint8_t *d, size_t n, uint64_t t) {
+		while (plock.test_and_set(std::memory_order_acquire)) {}
+		if (t < last_t) t = last_t;           // keep FIFO order
+		last_t = t;
+		size_t tl = tail.load(std::memory_order_relaxed);
+		for (size_t i = 0; i < n; i++) { slots[(tl + i) % CAP] = {t, d[i]}; }
+		tail.store(tl + n, std::memory_order_release);
+		plock.clear(std::memory_order_release);
+	}
+	// consumer: next byte if its release time has come
+	bool pop(uint64_t now, uint8_t &b) {
+		size_t h = head.load(std::memory_order_relaxed);
+		if (h == tail.load(std::memory_order_acquire)) return false;
+		const Slot &s = slots[h % CAP];
+		if (s.t > now) return false;
+		b = s.b;
+		head.store(h + 1, std::memory_order_relaxed);
+		return true;
+	}
+	// release time of the next byte (UINT64_MAX if empty); harness side
+	uint64_t front_time() const {
+		size_t h = head.load(std::memory_order_relaxed);
+		if (h == tail.load(std::memory_order_acquire)) return UINT64_MAX;
+		return slots[h % CAP].t;
+	}
+};
+
 struct Session {
 	ref::Bytes down;                         // everything handed to the write callback
 	std::vector<WriteRec> writes;
-	std::deque<std::pair<uint64_t, uint8_t>> up;   // (release time, byte)
-	unsigned long empty_polls = 0;           // consecutive empty polls of the read callback
-	unsigned long bytes_read = 0;
+	UpQueue up;                              // (release time, byte)
+	std::atomic<unsigned long> empty_polls{0};   // consecutive empty polls of the read callback
+	std::atomic<unsigned long> bytes_read{0};
 	bool running = false;
 	std::function<void(const uint8_t *, size_t)> on_write;   // bus simulator hook
 	std::map<std::string, uint8_t> up_seq;   // per node uplink sequence numbers (harness side)
